@@ -2,6 +2,7 @@
 //! monitors comparing the real `ide::Analysis` with expectations that G-prog knows by construction.
 use crate::core::*;
 use crate::gprog::{self, audit, Cfg, DeclKind, OutlineNode, Program};
+use crate::gprog::model::FaultSite;
 use crate::ws;
 use ide::file_system::{FileId, FilePosition, FileRange};
 use serde_json::{json, Value};
@@ -520,6 +521,92 @@ fn hover_hints(p: &Program, l: &L, rng: &mut Rng, v: &mut Vec<(String, String)>,
 }
 
 // ------------------------------------------------------------------------------------------------ C13
+/// Directed workload for the subclass relation behind type compatibility: a random multiple-inheritance
+/// hierarchy (no diamonds), defs with 1-3 parents, and for EVERY (def, ancestor) pair a field of the ancestor's
+/// type initialised with the def and a template argument of that type bound to it - all well-formed, so no
+/// diagnostic is expected; every (def, non-ancestor) pair is a type-incompatible-initialiser fault site.
+fn hierarchy_program(rng: &mut Rng) -> Program {
+    let nc = rng.range(4, 9);
+    let mut anc: Vec<Vec<usize>> = Vec::new(); // transitive, including itself
+    let mut text = String::new();
+    let pick_parents = |rng: &mut Rng, upto: usize, anc: &Vec<Vec<usize>>, max: usize| -> (Vec<usize>, Vec<usize>) {
+        let mut chosen: Vec<usize> = Vec::new();
+        let mut all: Vec<usize> = Vec::new();
+        let want = rng.below(max + 1);
+        for _ in 0..want {
+            let cands: Vec<usize> = (0..upto).filter(|c| !anc[*c].iter().any(|a| all.contains(a))).collect();
+            if cands.is_empty() {
+                break;
+            }
+            let c = cands[rng.below(cands.len())];
+            chosen.push(c);
+            all.extend(anc[c].iter().cloned());
+        }
+        (chosen, all)
+    };
+    for i in 0..nc {
+        let (par, mut all) = pick_parents(rng, i, &anc, 3);
+        text.push_str(&format!("class H{}", i));
+        for (k, c) in par.iter().enumerate() {
+            text.push_str(&format!("{}H{}", if k == 0 { " : " } else { ", " }, c));
+        }
+        text.push_str(";\n");
+        all.push(i);
+        anc.push(all);
+    }
+    let nd = rng.range(1, 4);
+    let mut danc: Vec<Vec<usize>> = Vec::new();
+    for d in 0..nd {
+        let (mut par, mut all) = pick_parents(rng, nc, &anc, 3);
+        if par.is_empty() {
+            par.push(nc - 1);
+            all = anc[nc - 1].clone();
+        }
+        text.push_str(&format!("def D{}", d));
+        for (k, c) in par.iter().enumerate() {
+            text.push_str(&format!("{}H{}", if k == 0 { " : " } else { ", " }, c));
+        }
+        text.push_str(";\n");
+        danc.push(all);
+    }
+    let mut p = Program::default();
+    let mut sites: Vec<((usize, usize), usize)> = Vec::new(); // (span of the type name, def)
+    text.push_str("class U {\n");
+    let mut f = 0;
+    for (d, all) in danc.iter().enumerate() {
+        for a in all {
+            text.push_str("  ");
+            let s = text.len();
+            text.push_str(&format!("H{}", a));
+            sites.push(((s, text.len()), d));
+            text.push_str(&format!(" f{} = D{};\n", f, d));
+            f += 1;
+        }
+    }
+    text.push_str("}\ndef u : U;\n");
+    for (d, all) in danc.iter().enumerate() {
+        for a in all {
+            text.push_str(&format!("class T{}<H{} a> {{ H{} g = a; }}\ndef t{} : T{}<D{}>;\n", f, a, a, f, f, d));
+            f += 1;
+        }
+    }
+    for ((s, e), d) in sites {
+        let non: Vec<usize> = (0..nc).filter(|c| !danc[d].contains(c)).collect();
+        if non.is_empty() {
+            continue;
+        }
+        let c = non[rng.below(non.len())];
+        let line_end = text[e..].find('\n').map(|k| e + k).unwrap_or(text.len());
+        p.fault_sites.push(FaultSite { file: 0, span: (s, e), replacement: format!("H{}", c), class: "type-incompatible-initialiser", expect: (s, line_end) });
+    }
+    if danc.iter().any(|all| all.len() >= 4) {
+        p.features.push("hierarchy:def-with-4+-ancestors");
+    }
+    p.files = vec![("root.td".to_string(), text)];
+    p.root = 0;
+    p.outline = vec![vec![]];
+    p
+}
 fn clean_diagnostics(p: &Program, l: &L, v: &mut Vec<(String, String)>, ctx: &mut Ctx) {
     ctx.eval();
     ctx.feature("clean_programs");
@@ -554,6 +641,14 @@ impl Check for GCheck {
         for k in 0..n {
             self.program_case(unit, k, ctx);
         }
+        if self.mode == GMode::Diagnostics {
+            for k in 0..ctx.tier.pick(4, 12) {
+                let mut rng = Rng::derive(ctx.seed, 0x6013, unit * 100_000 + k);
+                let p = hierarchy_program(&mut rng);
+                ctx.feature("hierarchy_programs");
+                self.check_program(&p, &mut rng, ctx, true);
+            }
+        }
     }
     fn replay(&self, case: &Value, ctx: &mut Ctx) {
         // the metadata of a generated program is not stored in the replay file; the replay re-runs the oracles
@@ -579,7 +674,7 @@ impl Check for GCheck {
         let gen = "programs from G-prog (gprog/): multi-file workspaces (root + 0-2 included files, optionally in a sub-directory) of classes with typed template arguments and defaults, typed fields, single/multiple inheritance with positional arguments, field overrides, defs (named, anonymous, pasted with loop variables), defvar (global, block-local, record-local, shadowing), foreach, if/else, top-level let, defset, multiclass (with and without template arguments, with parents) and defm, assert, and values built from in-scope names, literals and the typed bang operators incl. the variable-binding !foreach/!filter/!foldl; every program is audited by llvm-tblgen 14 (clean => accepted, with a seeded fault or dead use => rejected, else discarded and counted)";
         match self.mode {
             GMode::Resolution => format!("{}. Oracle: for every use the generator recorded, go-to-definition at its first, middle and last byte is exactly (file, identifier range) of the declaration the language rules give; find-references on every declaration is exactly its recorded uses (field-override names optional); every third program carries one dead use (a name used after its foreach/if/let/record/class/multiclass ended): it must not resolve to the ended declaration and a diagnostic must cover it. non-trivial = every generated program; distinct by digest of all file texts", gen),
-            GMode::Diagnostics => format!("{}. Oracle: a clean program has no diagnostic in any file; for each fault class (undefined class / multiclass / include, missing / surplus template argument, type-incompatible initialiser / let / argument, operator arity, deleted or inserted token in the root or an included file) one or two eligible sites per program are mutated (classes visited round-robin): some diagnostic in the site's file must overlap the site span, and included files analysed wholly before the fault stay clean. non-trivial = each clean program and each mutant; distinct by digest", gen),
+            GMode::Diagnostics => format!("{}. Oracle: a clean program has no diagnostic in any file; for each fault class (undefined class / multiclass / include, missing / surplus template argument, type-incompatible initialiser / let / argument, operator arity, deleted or inserted token in the root or an included file) one or two eligible sites per program are mutated (classes visited round-robin): some diagnostic in the site's file must overlap the site span, and included files analysed wholly before the fault stay clean. Directed family (4/12 per unit): random multiple-inheritance hierarchies of 4-9 classes without diamonds and 1-4 defs with 1-3 parents, where for every (def, ancestor) pair a field and a template argument of the ancestor's type is bound to the def (clean: no diagnostic) and the type name replaced by a non-ancestor is a type-incompatible-initialiser fault. non-trivial = each clean program and each mutant; distinct by digest", gen),
             GMode::Outline => format!("{} (pasted def names off). Oracle: document_symbol(file) equals the expected outline tree (order, kind, name, identifier range, one child per template argument and per declared/overridden field, defs of a defset as its children) for every file; folding_range(file) is one-to-one with the class/def/defset/foreach/if/let/multiclass statements with exact start and end, and pairwise nested or disjoint. non-trivial = every program; distinct by digest", gen),
             GMode::Hover => format!("{} (doc comments on). Oracle: hover on every declaration and every use that resolves correctly shows the kind keyword, name and declared type of that declaration and exactly the contiguous // lines above it (none if separated by a blank line or a block comment; a trailing comment on the previous statement's line is not one); inlay_hint over the whole file equals the expected hints (param: at the first byte of each positional argument, :type right after each overridden field name); over 12-20 random sub-ranges, ranges cutting through class references and empty ranges every returned hint is an expected one and lies inside the range. non-trivial = every program; distinct by digest", gen),
         }
@@ -592,7 +687,7 @@ impl Check for GCheck {
                 v.extend([("use:parent-class", n), ("use:field-init", n), ("use:template-arg-value", n / 2), ("use:bang-body", n / 4), ("use:def-name-paste", n / 20), ("use:if-condition", n / 40), ("use:foreach-range", n / 100), ("use:cross-file", n / 4), ("dead-use:if-then-defvar", n / 100), ("dead-use:foreach-iterator", n / 100), ("decl:bang-var", n / 4), ("gen:scope:shadowing-defvar", n / 40)]);
             }
             GMode::Diagnostics => {
-                v = vec![("clean_programs", tier.pick(600, 15_000)), ("fault:undefined-class", 100), ("fault:undefined-multiclass", 30), ("fault:undefined-identifier", 100), ("fault:undefined-include", 50), ("fault:missing-template-arg", 50), ("fault:surplus-template-arg", 100), ("fault:type-incompatible-initialiser", 100), ("fault:type-incompatible-let", 50), ("fault:type-incompatible-argument", 100), ("fault:operator-arity", 50), ("fault:operator-arity-surplus", 30), ("fault:syntax-delete-token", 100), ("fault:syntax-insert-token", 100), ("fault_in_included_file", 50)];
+                v = vec![("clean_programs", tier.pick(600, 15_000)), ("hierarchy_programs", tier.pick(300, 10_000)), ("gen:hierarchy:def-with-4+-ancestors", tier.pick(50, 1000)), ("fault:undefined-class", 100), ("fault:undefined-multiclass", 30), ("fault:undefined-identifier", 100), ("fault:undefined-include", 50), ("fault:missing-template-arg", 50), ("fault:surplus-template-arg", 100), ("fault:type-incompatible-initialiser", 100), ("fault:type-incompatible-let", 50), ("fault:type-incompatible-argument", 100), ("fault:operator-arity", 50), ("fault:operator-arity-surplus", 30), ("fault:syntax-delete-token", 100), ("fault:syntax-insert-token", 100), ("fault_in_included_file", 50)];
             }
             GMode::Outline => {
                 v.extend([("outline:Class", n), ("outline:Def", n), ("outline:Defset", n / 20), ("outline:Multiclass", n / 10), ("outline:defset-with-children", n / 20), ("gen:defset:def-under-if", n / 100), ("gen:defset:def-under-let", n / 100), ("fold:class", n), ("fold:if", n / 20), ("fold:let", n / 20)]);
